@@ -413,6 +413,34 @@ Definition sizeof_NIA : N := 328.
 Definition qs_prealloc (caps : N * (N * N)) : N :=
   let '(c1, (c2, c3)) := caps in sizeof_RA * c1 + sizeof_RW * c2 + sizeof_NIA * c3.
 
+(** bytes reserved by the make() calls DecodeQueuedState reaches on input [b],
+    whether or not the decode succeeds in the end (after a reader error the
+    remaining counts read as 0 and nothing more is reserved) *)
+Definition qs_ledger (capf : N -> N -> bytes -> N) (b : bytes) : N :=
+  if lenN b <? 8 then 0 else
+  match dec u16 b with
+  | None => 0
+  | Some (n1, r) =>
+      sizeof_RA * capf n1 28 r +
+      match dec_entries decode_RA (N.to_nat n1) r with
+      | None => 0
+      | Some (_, r) =>
+          match dec u16 r with
+          | None => 0
+          | Some (n2, r) =>
+              sizeof_RW * capf n2 26 r +
+              match dec_entries decode_RW (N.to_nat n2) r with
+              | None => 0
+              | Some (_, r) =>
+                  match dec u16 r with
+                  | None => 0
+                  | Some (n3, r) => sizeof_NIA * capf n3 28 r
+                  end
+              end
+          end
+      end
+  end.
+
 (** * Frame *)
 Definition Frame := (N * (N * (N * bytes)))%type.   (* type, flags, stream id, payload *)
 Definition Header := (N * (N * (N * N)))%type.       (* type, flags, length, stream id *)
